@@ -85,8 +85,14 @@ where
         walked_cstore
     }
 
-    /// Add new constraint `c` while keeping the store normalized
-    pub fn push_and_normalize(&mut self, newc: Rc<dyn Constraint<U, E>>) {
+    /// Add new constraint `c` while keeping the store normalized. Returns the constraints
+    /// that were dropped from the store as redundant; this is the new constraint itself if
+    /// it is subsumed by a constraint already in the store.
+    pub fn push_and_normalize(
+        &mut self,
+        newc: Rc<dyn Constraint<U, E>>,
+    ) -> Vec<Rc<dyn Constraint<U, E>>> {
+        let mut dropped = vec![];
         if let Some(tree_newc) = newc.downcast_ref::<DisequalityConstraint<U, E>>() {
             // If a stored constraint subsumes the new one, the new one is redundant and
             // the store is left as it is.
@@ -97,7 +103,8 @@ where
                 }
             });
             if redundant {
-                return;
+                dropped.push(newc);
+                return dropped;
             }
 
             let mut normalized = HashSet::new();
@@ -106,6 +113,8 @@ where
                 if let Some(tree_storec) = storec.downcast_ref::<DisequalityConstraint<U, E>>() {
                     if !tree_newc.subsumes(tree_storec) {
                         normalized.insert(storec);
+                    } else {
+                        dropped.push(storec);
                     }
                 } else {
                     normalized.insert(storec);
@@ -114,13 +123,14 @@ where
             self.0 = normalized;
         }
         self.insert(newc);
+        dropped
     }
 
     /// Remove redundant constraints from the store
     pub fn normalize(self) -> ConstraintStore<U, E> {
         let mut normalized_store = ConstraintStore::new();
         for storec in self.0.into_iter() {
-            normalized_store.push_and_normalize(storec.into());
+            let _ = normalized_store.push_and_normalize(storec.into());
         }
         normalized_store
     }
